@@ -143,7 +143,18 @@ func isoTrees(e *Env, r *rand.Rand, parent string, hostileNames bool) []isoCase 
 			}
 		}
 	}
+	// directory counts at which the Joliet path table needs more sectors than the primary one (its
+	// identifiers are twice as long): every table has its own length
+	for _, nd := range []int{80, 110, 300} {
+		m := map[string]int64{}
+		for i := 0; i < nd; i++ {
+			m[fmt.Sprintf("dir%05d/f%d", i, i%3)] = int64(1 + i%7)
+		}
+		mk(fmt.Sprintf("dirs%d", nd), nd == 110, m)
+	}
 	if hostileNames {
+		mk("collide-dirs-mapped", false, map[string]int64{"save#1/a": 1, "save$1/b": 2, "save#1/sub/c": 3, "other/x": 4})
+		mk("collide-dirs-case", false, map[string]int64{"Data/x": 4, "DATA/y": 5, "DATA/sub/z": 6})
 		// C08 space: long names, non-ASCII, colliding after mapping, many entries, > 1000 directories
 		for _, l := range []int{64, 100, 110, 111, 127, 128, 200, 255} {
 			mk(fmt.Sprintf("longfile%d", l), false, map[string]int64{strings.Repeat("n", l): 5, "z": 1})
